@@ -120,6 +120,10 @@ CHECKS["C45"] = dict(engine="tlc+vh", level="model_checking", ref="4.17b", techn
                      text="NoLoss / OpensExactly / OneProbe are TLC invariants of the design; on every replayed schedule TLC checks the breaker contract on the RECORDED admissions (opens after exactly the threshold, rejects until the timeout, one probe while half-open) and that every handed event is delivered or dead-lettered once as a readable entry naming sink and error.",
                      note="Trusted: hook H2, the gate-based realisation of interleavings. Bounded: 3 senders, thresholds 1..3, timeouts 1..2 ticks, schedules of <= 14 steps.")
 
+CHECKS["C25"] = dict(engine="tlc+vh", level="model_checking", ref="4.14", technique="TLA+ spec (Trend.tla): brute-force reference (cross-checked with a DP form by TLC) + faithful transcription of the Hamlet aggregator; TLC enumerates every type sequence of the bound for 7 query sets; each replayed into the real HamletAggregator (alone, shared, and as a second window on a reused aggregator); error-delta",
+                     text="Both sentences of the property are decided by error-delta: the real values must equal the reference, or equal exactly what the faithful transcription predicts (recorded findings); second windows on a reused aggregator must equal the same stream on a fresh one.",
+                     note="Trusted: TLC. Bounded: sequences over {A,B,C} up to length 5 (thorough 8), 4 single queries and 3 pairs, aggregator API level.")
+
 NOT_APPLICABLE = {
     "C41": "parser totality over arbitrary strings: no state/transition system to specify; a TLA+ model would only enumerate token strings (fuzzing under another name)",
     "C43": "LSP handler robustness over arbitrary text/cursor: per-call robustness, no protocol state in the property; outside model-based verification",
